@@ -379,6 +379,38 @@ def toplevel_call_families():
     return out
 
 
+def adjacent_call_site_cases():
+    """two CONSECUTIVE call sites of one helper on either side of a boundary - the end of a function that nothing calls, the end of a function
+    that is called, top-level code - in the main file and in an imported file (round 16: C09-I, the call-graph bookkeeping skipped for "the same
+    callee as the previous call", the memo reset at the START of a function body only: a helper called last in an unused function and next at
+    top level loses its only recorded caller and is removed)"""
+    out = []
+    for c1 in "UGT":
+        for c2 in "UGT":
+            if c1 == "T" and c2 == "T":
+                continue
+            body = ["func note(s string) {", "\tprint(\"note\", s)", "}"]
+            exp, late = [], []
+            for k, c in ((1, c1), (2, c2)):
+                if c == "U":
+                    body += ["func Unused%d() {" % k, "\tprint(\"never\")", "\tnote(\"%d\")" % k, "}"]
+                elif c == "G":
+                    body += ["func Used%d() {" % k, "\tnote(\"%d\")" % k, "}"]
+                    late.append(k)
+                else:
+                    body += ["note(\"%d\")" % k]
+                    exp.append("note %d" % k)
+            for k in late:
+                body.append("Used%d()" % k)
+                exp.append("note %d" % k)
+            single = body + ["print(\"end\")"]
+            out.append(("adjacent-calls-%s%s-main" % (c1, c2), {"main.tsh": "\n".join(single) + "\n"}, "".join(e + "\n" for e in exp) + "end\n"))
+            lib = body + ["func Done() int {", "\treturn 7", "}"]
+            out.append(("adjacent-calls-%s%s-lib" % (c1, c2), {"main.tsh": 'import l "lib.tsh"\nprint("main", l.Done())\n', "lib.tsh": "\n".join(lib) + "\n"},
+                        "".join(e + "\n" for e in exp) + "main 7\n"))
+    return out
+
+
 def initialisation_order_cases():
     """top-level statements and global definitions of an imported file run in the order in which the file has them, before the importer's
     own (round 11: C09-D hoisted all imported definitions above all imported top-level code)"""
@@ -451,7 +483,7 @@ def run(res, b, tier, seed):
         if c.out.get("BASH", ("", ""))[0] != "ERR":
             fails.append((c, "negative-accepted", dict(cls=c.out.get("BASH", ("", ""))[0])))
     # alias resolution matrix: rejected exactly when the property says so, accepted programs print the value of the function meant
-    am = [pipeline.Case("a" + name, {k: v.encode() for k, v in files.items()}, meta=dict(src=files["main.tsh"], expect=exp)) for name, files, exp in alias_matrix() + directory_cases() + global_cases() + toplevel_call_families() + initialisation_order_cases() + similar_name_cases()]
+    am = [pipeline.Case("a" + name, {k: v.encode() for k, v in files.items()}, meta=dict(src=files["main.tsh"], expect=exp)) for name, files, exp in alias_matrix() + directory_cases() + global_cases() + toplevel_call_families() + adjacent_call_site_cases() + initialisation_order_cases() + similar_name_cases()]
     pipeline.run_pipe(b, am, "as")
     acc = [c for c in am if c.out.get("BASH", ("", ""))[0] == "OK"]
     runs = common.pmap_proc(semcheck._exec, [(bytes.fromhex(c.out["BASH"][1]), b"") for c in acc])
